@@ -62,7 +62,7 @@ def replay(path):
         print("impl :", V.run_lines(unit, [rp["case"]])[1])
         if rp["case"].startswith("MS"):
             print("model:", V.run_lines(model, [rp["case"]])[1])
-    elif kind in ("crash", "load", "load-name", "fsize"):
+    elif kind in ("crash", "load", "load-name", "fsize", "corrupt-count", "load-session", "large-step", "cross-load"):
         vsim = V.build_prog("vsim", PROGS["vsim"])
         model = V.extract_model("C11", EXTRACT, DRIVER, [])
         CRASH.replay(rp, vsim, model)
